@@ -88,6 +88,17 @@ def check_case(sub, case):
             sub.fail("C02|%s|exception|%s" % (type_name, type(error).__name__), dict(case, cells=[cell]),
                      "validated(%r) of %r raised %s: %s" % (cell, decl, type(error).__name__, error))
             continue
+        # the verdict is a function of the cell: the same cell validated again right away gets the same one
+        try:
+            field_format.validated(cell)
+            again = "accept"
+        except errors.FieldValueError:
+            again = "reject"
+        except Exception:
+            again = "exception"
+        if again != outcome:
+            sub.fail("C02|%s|verdict-changes-on-repetition" % type_name, dict(case, cells=[cell, cell]),
+                     "validated(%r) of %r: first %s, immediately again %s" % (cell, decl, outcome, again))
         if expected[0] == "accept":
             if outcome != "accept":
                 sub.fail("C02|%s|rejected-but-must-accept|%s" % (type_name, fmt["format"]), dict(case, cells=[cell]),
